@@ -60,8 +60,146 @@ def check_C02(ctx):
                   ASSUME_COMMON + ["untyped target sees the document through deserialize_any with DuplicateKeyPolicy::LastWins"])
 
 
+# ------------------------------------------------------------------------------------------------
+# C03 / C04 (one machine: MapAccess)
+# ------------------------------------------------------------------------------------------------
+def py_expand(raw):
+    """alias-free expansion of a raw event list (None if undefined); used only by known-finding matchers"""
+    def end_of(i):
+        d = 0
+        j = i
+        while True:
+            k = raw[j]["k"]
+            if k in ("SS", "MS"):
+                d += 1
+            elif k in ("SE", "ME"):
+                d -= 1
+            if d == 0:
+                return j
+            j += 1
+    out = []
+    def go(lo, hi, depth):
+        if depth > 50:
+            raise ValueError
+        i = lo
+        while i < hi:
+            e = raw[i]
+            if e["k"] == "AL":
+                s = next((j for j in range(i) if raw[j]["k"] in ("S", "SS", "MS") and raw[j]["a"] == e["a"]), None)
+                if s is None or i <= end_of(s):
+                    raise ValueError
+                go(s, end_of(s) + 1, depth + 1)
+            else:
+                out.append(e)
+            i += 1
+    try:
+        go(0, len(raw), 0)
+    except ValueError:
+        return None
+    return out
+
+
+def has_kemn_key(raw):
+    """a mapping key that is itself a one-entry mapping whose key is null-like (the `kemn` special case)"""
+    x = py_expand(raw)
+    if x is None:
+        return False
+    def end_of(i):
+        d = 0
+        j = i
+        while True:
+            k = x[j]["k"]
+            if k in ("SS", "MS"):
+                d += 1
+            elif k in ("SE", "ME"):
+                d -= 1
+            if d == 0:
+                return j
+            j += 1
+    found = False
+    def node(i, iskey):
+        nonlocal found
+        e = x[i]
+        if e["k"] == "S":
+            return i + 1
+        if e["k"] == "SS":
+            j = i + 1
+            while x[j]["k"] != "SE":
+                j = node(j, False)
+            return j + 1
+        # MS
+        j = i + 1
+        n = 0
+        firstkey = None
+        while x[j]["k"] != "ME":
+            if n == 0:
+                firstkey = x[j]
+            j = node(j, True)
+            j = node(j, False)
+            n += 1
+        if iskey and n == 1 and firstkey["k"] == "S" and (firstkey["t"] in ("!!null",) or firstkey["v"] == "" or firstkey["v"] == "~" or firstkey["v"].lower() == "null"):
+            found = True
+        return j + 1
+    node(0, False)
+    return found
+
+
+def ma_matchers():
+    return {"C04-kemn-key": lambda rec, detail: has_kemn_key(rec.get("raw", []))}
+
+
+def mapaccess_check(ctx, which):
+    q = ctx.quick()
+    cases = ctx.path("cases.ndjson")
+    invs = ["InvAgree", "InvCursor", "InvFaultyRoot", "InvPolicyIrrelevant", "EmitCase"]
+    pol = ["Error", "FirstWins", "LastWins"]
+    if which == "C03":
+        consts = dict(MaxEv=10 if q else 13, Policies=pol, AllowSeqKeys=False, KeyScalars="<- KeyScalarsQ")
+        consts2 = dict(MaxEv=8 if q else 11, Policies=pol, AllowSeqKeys=False, KeyScalars="<- KeyScalarsT")
+    else:
+        consts = dict(MaxEv=9 if q else 12, Policies=pol, AllowSeqKeys=True, KeyScalars="<- KeyScalarsD")
+        consts2 = dict(MaxEv=8 if q else 11, Policies=pol, AllowSeqKeys=True, KeyScalars="<- KeyScalarsT")
+    run_mc(ctx, "MC_MapAccess", consts, invs, workers=8, timeout=3000, cases_out=cases, label="MC_MapAccess")
+    cases2 = ctx.path("cases2.ndjson")
+    run_mc(ctx, "MC_MapAccess", consts2, invs, workers=8, timeout=3000, cases_out=cases2, label="MC_MapAccess_styles")
+    ctx.exhaustive = True
+    allcases = ctx.path("allcases.ndjson")
+    with open(allcases, "w") as fo:
+        for p in (cases, cases2):
+            fo.write(open(p).read())
+    recs = ctx.path("recs.ndjson")
+    nrand = 3000 if q else 40000
+    st = run_vh(ctx, ["c03", "--cases", allcases, "--out", recs, "--random", nrand, "--seed", ctx.seed,
+                      "--max-events", 40 if q else 70, "--focus", which])
+    ctx.evaluations += st["records"]
+    ctx.distinct_nontrivial += st["nontrivial"] if which == "C03" else st["nontrivial_dup"]
+    ctx.samples += st["samples"]
+    ctx.notes["documents_with_merge_key"] = st["nontrivial"]
+    ctx.notes["documents_with_repeated_key"] = st["nontrivial_dup"]
+    mism = run_tv(ctx, "TV_MapAccess", recs, timeout=3000)
+    classify_mismatches(ctx, mism, recs, ma_matchers(),
+                        "observed mapping delivery differs from MapAccess!Delivered (merge precedence / duplicate-key policy)")
+    rule = ("cases: every root mapping up to MaxEv events over keys {a, b, <<} (quoted/plain variants, sequence keys for C04) "
+            "and uniquely labelled values, enumerated by TLC, each rendered in flow style, block style and with merge "
+            "sources moved behind anchors, under all three policies; plus random documents; non-trivial = distinct "
+            + ("documents containing a merge key" if which == "C03" else "documents with a repeated own key"))
+    return finish(ctx, "model_checking", rule,
+                  ASSUME_COMMON + ["order-preserving pair-list target observes exactly what MapAccess yields",
+                                   "outcome for merge sources that repeat a key internally is not prescribed (skipped as unconstrained)"])
+
+
+def check_C03(ctx):
+    return mapaccess_check(ctx, "C03")
+
+
+def check_C04(ctx):
+    return mapaccess_check(ctx, "C04")
+
+
 CHECKS = {
     "C02": check_C02,
+    "C03": check_C03,
+    "C04": check_C04,
 }
 
 
